@@ -9,12 +9,14 @@ the lines below. lean_exe `drv-dkgrun` is already in lakefile.toml; the hook /re
 committed ("verif hook: dkg post-ceremony glue ...").
 
 n_quick / n_thorough count CEREMONIES (each a real dkg.Run of all nodes, 1-3 s), not ops; one ceremony is
-followed by ~60-120 ops on its artifacts. Quick tier: 4 ceremonies per seed, about 8-15 s per seed.
+followed by ~60-120 ops on its artifacts; the first ceremony of a quick seed (every ceremony in the thorough tier, chains of up
+to three) is followed by one cluster-changing protocol (reshare / addop / rmop / replop, ~1.5 s with the production keystore
+cost) and ~50-150 ops on the new cluster. Quick tier: 4 ceremonies + 1 protocol per seed, about 6-12 s per seed.
 """
 
 STREAM = {"name": "dkgrun", "drive": "drive-dkgrun", "model": "drv-dkgrun",
           "reset_ops": ["run"],
-          "n_quick": 4, "seeds_quick": 2, "n_thorough": 60, "seeds_thorough": 3,
+          "n_quick": 4, "seeds_quick": 2, "n_thorough": 30, "seeds_thorough": 3,
           "search_seeds": 1}
 
 EXTRA_LEAN = "CharonV.Props.C11Run"
@@ -32,11 +34,29 @@ THEOREMS = [
     "CharonV.DkgGlue.exchange_entries_from_index_holder",
     "CharonV.DkgGlue.exchange_result_is_honest",
     "CharonV.DkgGlue.lock_of_honest_ceremony",
+    "CharonV.DkgGlue.protocol_lock_keeps_group_keys",
+    "CharonV.DkgGlue.protocol_lock_pubshares_in_new_share_order",
+    "CharonV.DkgGlue.remove_operators_bookkeeping",
+    "CharonV.DkgGlue.replace_operator_keeps_positions",
     "CharonV.DkgGlue.aggregate_is_group_signature",
     "CharonV.DkgGlue.threshold_bls_satisfies_laws",
 ]
 
 TRUSTED_BASE = [
+    "cluster-changing ceremonies (dkg/protocol.go RunProtocol, protocol_reshare / _addoperators / _removeoperators / "
+    "_replaceoperator.go, protocolsteps.go, and through them pedersen.RunReshareDKG with added / removed peers, restoreCommits, "
+    "broadcastNoneKey): after a `run` ceremony the ops reshare / addop k / rmop ids part t' / replop pos run the REAL protocol for "
+    "all participating nodes in one process (loopback TCP, production keystore cost) on the artifacts the previous generation "
+    "WROTE, also chained (thorough tier); what every node of the new cluster wrote is loaded with the loaders of `charon run` "
+    "and checked with tbls alone against the group keys and group secrets of the ceremony: group key unchanged, new lock's "
+    "public shares = public keys of the new keystore secrets in the new share-index order, every continuing operator's share "
+    "changed, a removed operator's old share does not complete t'-1 new shares, operator set and threshold as requested, same "
+    "lock on all nodes, lock accepted by the loader, signature aggregate and node signatures over the new lock hash, deposit data "
+    "and registrations carried over; the new secrets go to the Lean side as scalars (nval / nrec / nsig: degree < t', the SAME "
+    "group secret as before - Props/C11.lean reshare_keeps_key is the theorem behind it - every threshold subset of new shares "
+    "recovers it and signs validly under the OLD group key); op part compares the new lock (operators by name, threshold, "
+    "validators assembled by the model's updateLockValidators from the old lock and the new shares filed under the ORIGINAL "
+    "share indices) and keystores with the model",
     "model CharonV/Model/DkgGlue.lean mirrors, function by function, share.MsgFromShare, signLockHash, signDepositMsgs, "
     "signValidatorRegistrations, aggDepositData, aggValidatorRegistrations, aggLockHashSig, createDistValidators, "
     "signAndAggDepositData / signAndAggValidatorRegistrations / signAndAggLockHash (what an exchange returned is an "
@@ -69,6 +89,13 @@ TRUSTED_BASE = [
 ]
 
 ASSUMPTIONS = [
+    "cluster-changing protocols: the algebra of the reshare (new shares lie on a polynomial of degree < t' with the same "
+    "constant term) is Props/C11.lean reshare_is_shamir / reshare_keeps_key and is re-checked on every run on the real scalars; "
+    "the theorems here are about the assembly of the new lock (protocol_lock_keeps_group_keys, "
+    "protocol_lock_pubshares_in_new_share_order for any strictly increasing filing keys, remove / replace bookkeeping). "
+    "Modelled as the code is: every protocol fails on a lock of definition version v1.6.0 (node signatures stored in a lock "
+    "whose version has none: fixes/C11-protocol-v16-node-signatures.diff); a replaced operator does not take part; the reshare "
+    "protocol keeps the threshold",
     "the theorems about the lock content take the cryptography as hypotheses (structure Laws: a partial signature "
     "verifies under its public share; the n collected partials threshold-aggregate to the group signature; the group "
     "signature verifies under the group key; public share = public key of the secret share); "
